@@ -68,6 +68,10 @@ def id_lists(pool, n):
         yield base
         for p in range(k):
             yield base[:p] + (BLANK,) + base[p + 1:]
+        if k >= 2:
+            # an ID named twice is named twice: the exposed list is the message's list
+            yield base + (base[0],)
+            yield (base[-1],) + base
 
 
 def cases(tier):
@@ -189,6 +193,31 @@ def worker(ns, items, res, opts):
             continue
         for dev, detail in yield_from:
             bad(dev, detail)
+        if not yield_from and not pretty:
+            # the same message arriving as bytes / as a file in a declared non-UTF-8 encoding exposes the same
+            import os as _os
+            import tempfile as _tf
+            data = ('<?xml version="1.0" encoding="UTF-16"?>' + text).encode('utf-16')
+            srcs_ = [('utf-16 bytes', lambda: ns.mt.MosFile.from_string(data))]
+            try:
+                l1 = ('<?xml version="1.0" encoding="ISO-8859-1"?>' + text).encode('iso-8859-1')
+                srcs_.append(('iso-8859-1 bytes', lambda: ns.mt.MosFile.from_string(l1)))
+            except UnicodeEncodeError:
+                l1 = None
+            fd, pth = _tf.mkstemp(suffix='.mos.xml', prefix='mosmc-c20-')
+            with _os.fdopen(fd, 'wb') as f:
+                f.write(l1 if l1 is not None else data)
+            srcs_.append(('iso-8859-1 file' if l1 is not None else 'utf-16 file', lambda: ns.mt.MosFile.from_file(pth)))
+            for sname, fn in srcs_:
+                try:
+                    m2 = fn()
+                    devs = list(check(ns, m2, case, base)) if type(m2).__name__ == kind else [('class', f'classified as {type(m2).__name__}')]
+                except Exception as e:  # noqa
+                    devs = [(f'raised:{type(e).__name__}', f'{type(e).__name__}: {e}')]
+                res.extra['rechecked_from_encoded_source'] += 1
+                for dev, detail in devs[:1]:
+                    bad(f'from-{sname.replace(" ", "-")}:' + dev, f'read from {sname}: ' + detail)
+            _os.unlink(pth)
         if not yield_from and kind in _STORY_CARRIERS:
             # the message object must expose the same after it has been merged and the running order that
             # received it was edited inside the carried story
